@@ -181,6 +181,9 @@ class Report:
 def main_wrapper(fn):
     """Run fn(args) -> exit code with the HARNESS-ERROR contract."""
     try:
+        import signal
+        # a terminated check still removes its tmpfs directory and stops its zygotes (atexit handlers run on SystemExit)
+        signal.signal(signal.SIGTERM, lambda *_: sys.exit(143))
         args = parse_args()
         ensure_setup()
         code = fn(args)
